@@ -58,6 +58,12 @@ def mutate(rng, s):
             ops.append(op)
     ops.insert(1, ("events",))
     ops.insert(1, ("allowed",))
+    if rng.random() < 0.4:
+        # the state changes behind the machine's back (the record is reloaded, another machine drives the same model):
+        # allowed_events is asked before and after — it follows the model, like every other reader
+        for _ in range(rng.randint(1, 2)):
+            pos = rng.randint(2, len(ops))
+            ops[pos:pos] = [("allowed",), ("write", rng.choice([st.val for st in s.states])), ("allowed",)]
     if s.bind_model:
         # (a second machine created over a model whose bound triggers still belong to the first one, and then
         # copied, drags the first machine into the copy through the model: DESIGN 11.6, not generated)
